@@ -77,7 +77,7 @@ func (s *SimStorage) enter(loc, op, key, val string) (int64, *Fault, error) {
 	}
 	if s.Latency != nil {
 		if b, _ := s.Latency(n, op); b > 0 {
-			s.Fired["latency"]++
+			s.fire("latency")
 			time.Sleep(b)
 		}
 	}
@@ -87,12 +87,12 @@ func (s *SimStorage) enter(loc, op, key, val string) (int64, *Fault, error) {
 		case "store-error-before":
 			call.Outcome = f.Kind
 			s.record(call)
-			s.Fired[f.Kind]++
+			s.fire(f.Kind)
 			return n, nil, ErrInjected
 		case "crash-before":
 			call.Outcome = f.Kind
 			s.record(call)
-			s.Fired[f.Kind]++
+			s.fire(f.Kind)
 			s.mu.Lock()
 			s.Dead = true
 			s.mu.Unlock()
@@ -116,7 +116,7 @@ func (s *SimStorage) record(c StoreCall) {
 func (s *SimStorage) exit(n int64, op string, f *Fault, err error) error {
 	if s.Latency != nil {
 		if _, a := s.Latency(n, op); a > 0 {
-			s.Fired["latency"]++
+			s.fire("latency")
 			time.Sleep(a)
 		}
 	}
@@ -126,10 +126,10 @@ func (s *SimStorage) exit(n int64, op string, f *Fault, err error) error {
 	if f != nil {
 		switch f.Kind {
 		case "store-error-after":
-			s.Fired[f.Kind]++
+			s.fire(f.Kind)
 			return ErrInjected
 		case "crash-after":
-			s.Fired[f.Kind]++
+			s.fire(f.Kind)
 			s.mu.Lock()
 			s.Dead = true
 			s.mu.Unlock()
@@ -193,6 +193,19 @@ func (s *SimStorage) GetStats(ctx *core.Context, loc string) (core.StorageStats,
 
 func (s *SimStorage) Close(ctx *core.Context) error  { return s.Inner.Close(ctx) }
 func (s *SimStorage) Health(ctx *core.Context) error { return s.Inner.Health(ctx) }
+
+// ErrorsFired is the number of injected storage failures so far.
+func (s *SimStorage) ErrorsFired() int64 {
+	s.mu.Lock()
+	defer s.mu.Unlock()
+	return s.Fired["store-error-before"] + s.Fired["store-error-after"]
+}
+
+func (s *SimStorage) fire(kind string) {
+	s.mu.Lock()
+	s.Fired[kind]++
+	s.mu.Unlock()
+}
 
 // Revive clears the crash flag: a new process incarnation starts using the
 // same durable content.
